@@ -111,7 +111,7 @@ def leaksOf (p : Sexp) : Leaks := match p.field? "leaks" with
 def newRegion (lk : Leaks) (fl : NFlags) (disk : Disk) : LoopSt NSt NType NOut → List NType → String
   | _, [] => "WF"
   | ls, t :: ts =>
-    if !assignableSure (effective disk ls.overlay) t then "Out"
+    if !assignableSure (effective disk ls.overlay) t || ambiguousNames t then "Out"
     else if lk.hasNew && hasNewRelevant ls.st t then "F_hasNewLeak"
     else if lk.newAcc && accRelevant fl ls.st t then "F_getsetLeak"
     else newRegion lk fl disk (iter (newMachine lk fl) disk ls t ts.isEmpty) ts
